@@ -156,6 +156,11 @@ class Registry:
         if name in self.schemas:
             # later declarations extend earlier ones (shared schemas grow per property)
             old = self.schemas[name]
+            for a, k in list(s.fields.items()):
+                # the more specific declaration wins whatever the module order: a later module that only
+                # needs the field as an opaque value (`any`) must not re-model it for every earlier contract
+                if k == 'any' and a in old.fields and old.fields[a] != 'any':
+                    del s.fields[a]
             old.fields.update(s.fields)
             old.key_view = old.key_view or key_view
             old.eq_view = old.eq_view or eq_view
